@@ -192,6 +192,36 @@ def _decl_signature(world):
     return decl, sizes
 
 
+def _under_decimal_context(col):
+    """the shipped modules are imported while the thread's decimal context is a coarse one (5 digits,
+    as an application doing money arithmetic might have set) and used after it has been restored:
+    every named unit must still convert to and from its coherent SI unit by the declared numbers"""
+    import decimal
+
+    global W, SZ
+    keep = (W, SZ)
+    with decimal.localcontext() as ctx:
+        ctx.prec = 5
+        w3 = World([ALL_SYSTEMS, "geometry", "physics"])
+    try:
+        W, SZ = w3, Sizes(w3, w3.m.One)
+        n = 0
+        for u in w3.named_units():
+            case = {"k": "unit", "name": u.name, "imported_under": "decimal prec=5"}
+            out = run_case(case)
+            for f in out.failures:
+                # same bucket as in the default configuration (a unit that fails there fails here for
+                # the same reason); the detail says which configuration this was
+                f.detail = "[modules imported under decimal prec=5] " + f.detail
+            out.classes = ["imported-under-decimal-prec5"]
+            out.nontrivial = f"prec5|{u.name}" if out.nontrivial else None
+            col.add(case, out)
+            n += 1
+        col.extra["units_checked_after_import_under_decimal_prec5"] = n
+    finally:
+        W, SZ = keep
+
+
 def post(tier, col):
     # import-order independence of the declared set: every shipped module imported first
     from ..world import SHIPPED_MODULES
@@ -210,6 +240,7 @@ def post(tier, col):
             diff = sorted(set(sig[1]) ^ set(ref[1]))[:6]
             out.fail(f"C09:import-order:sizes:{mod}", f"importing measured.{mod} first changes solved sizes: {diff}")
         col.add({"k": "order", "first": mod}, out)
+    _under_decimal_context(col)
     col.extra["declarations"] = len(W.decls)
     col.extra["scale_declarations"] = len(W.scales)
     col.extra["roots"] = [r.name for r in SZ.roots]
